@@ -314,6 +314,13 @@ def rule_fw_shape(crate, prop, tier):
             dsc = sw["discr"]
             if dsc[0] == "discr" and dsc[1] in next_sites:
                 continue
+            if any(tg not in an.cfg.can_return for tg, _ in an.cfg.succ[sw["b"]]):
+                continue        # a bounds / overflow check: the other side panics, nothing is skipped
+            tm = an.blocks[sw["b"]]["term"]
+            if dsc in (x, y) and all(int(v_) == IMAX for v_, _ in tm.get("targets", [])):
+                continue        # `match operand { isize::MAX => continue, b => .. }`
+            if dsc[0] == "discr" and dsc[1][0] == "call" and dsc[1][1].endswith("::checked_add") and set(dsc[1][3]) == {x, y}:
+                continue        # `let Some(s) = a.checked_add(b) else { continue }`: skips only where a + b would overflow
             o.check(_fw_allowed_guard(dsc, (x, y), val, items, lambda t: (load_parts(t)[0] == D and rowmajor(load_parts(t)[1], N) == (a, c))),
                     who, "F5-no-pruning", "a test other than `operand == isize::MAX`, `sum < dist[a][c]` or an index coincidence can bypass "
                     "the relaxation dist[a][c] = min(dist[a][c], dist[a][b] + dist[b][c])", sw["span"])
@@ -327,9 +334,9 @@ def _fw_allowed_guard(dsc, operands, val, items, is_target_cell):
         return False
     l, r = dsc[2], dsc[3]
     imax = ("const", "isize", IMAX)
+    if imax in (l, r) and (l in operands or r in operands):
+        return True          # any comparison of an operand with the infinity value
     if dsc[1] in ("Eq", "Ne"):
-        if imax in (l, r) and (l in operands or r in operands):
-            return True
         if l in items and r in items:
             return True
         return False
@@ -779,31 +786,77 @@ def _center_clause(crate, o, m, ecc_path):
         swapped = False
     elif is_e(v2) and not is_min(v2) and is_min(v1):
         swapped = True
+    inf_only = lambda vals: bool(vals) and all(v[0] == "mem" and v[1] == "A1.infinity" for v in vals)
+    if swapped is None and ((is_e(v1) and inf_only(v2)) or (is_e(v2) and inf_only(v1))):
+        o.check(False, who, "center-min-update", "the eccentricities are compared with `infinity` itself: the running minimum is never "
+                "updated inside the scan", C["span"])
+        return
     if swapped is None:
         o.undecide(who, "center-definition", "the operands of cmp are not (eccentricity of the vertex, running minimum started at infinity)")
         return
     lower, minreg = ("Greater", r1) if swapped else ("Less", r2)
+    upper = "Less" if swapped else "Greater"
+    from .facts import contradictory
 
-    def variant_at(b):
-        vs = set()
-        for w in fx.worlds_at(b):
-            got = [a[2] for a in w if a[0] == "variant" and a[1] == C["res"]]
-            vs.add(got[0] if len(got) == 1 else None)
-        return vs.pop() if len(vs) == 1 else None
-    pushes = [ev for ev in an.events if ev["k"] == "call" and ev["key"] == "alloc::vec::Vec::push" and ev["b"] in body]
-    clears = [ev for ev in an.events if ev["k"] == "call" and ev["key"] == "alloc::vec::Vec::clear" and ev["b"] in body]
-    mins = [ev for ev in an.events if ev["k"] == "store" and ev["region"] == minreg and ev["b"] in body]
-    pv = sorted(str(variant_at(ev["b"])) for ev in pushes)
-    o.check(pv == sorted([lower, "Equal"]) and all(ev["args"][1] == i_t for ev in pushes), who, "center-push",
+    def reach(assume, avoid, targets):
+        """some block of `targets` is reachable from the comparison inside one iteration, along edges consistent with
+        `assume`, without passing a block of `avoid`"""
+        seen = set()
+        work = [C["b"]]
+        while work:
+            x = work.pop()
+            if x in seen:
+                continue
+            seen.add(x)
+            if x in targets and x != C["b"]:
+                return True
+            if x in avoid and x != C["b"]:
+                continue
+            for tg, lab in an.cfg.succ[x]:
+                if tg not in body or tg == hb:
+                    continue
+                atoms = set(fx.close(fx.edge_atoms(x, lab, tg))) | assume
+                if contradictory(atoms):
+                    continue
+                work.append(tg)
+        return False
+    V = lambda name: {("variant", C["res"], name)}
+    pushes = {ev["b"] for ev in an.events if ev["k"] == "call" and ev["key"] == "alloc::vec::Vec::push" and ev["b"] in body
+              and ev["args"][1] == i_t}
+    allpush = {ev["b"] for ev in an.events if ev["k"] == "call" and ev["key"] == "alloc::vec::Vec::push" and ev["b"] in body}
+    clears = {ev["b"] for ev in an.events if ev["k"] == "call" and ev["key"] == "alloc::vec::Vec::clear" and ev["b"] in body}
+    mins = {ev["b"] for ev in an.events if ev["k"] == "store" and ev["region"] == minreg and ev["b"] in body
+            and ev["val"][0] == "mem" and ev["val"][3] == e_t}
+    allmins = {ev["b"] for ev in an.events if ev["k"] == "store" and ev["region"] == minreg and ev["b"] in body}
+    lat = set(latches)
+    lregs = {ev["args"][0][1] for ev in an.events if ev["k"] == "call" and ev["key"] == "alloc::vec::Vec::push" and ev["b"] in pushes
+             and ev["args"][0][0] == "addr"}
+    other_resets = [ev for ev in an.events if ev["b"] in body and (
+        (ev["k"] == "store" and ev["region"] in lregs) or
+        (ev["k"] == "call" and ev["key"] not in ("alloc::vec::Vec::push", "alloc::vec::Vec::clear") and not ev.get("pure") and ev["args"]
+         and ev["args"][0][0] == "addr" and ev["args"][0][1] in lregs))]
+    if pushes and not clears and not other_resets:
+        o.check(False, who, "center-clear", "the list of candidates is never emptied inside the scan: vertices pushed before a smaller "
+                "eccentricity was found stay in the result", C["span"])
+        return
+    if pushes and not allmins:
+        o.check(False, who, "center-min-update", "the running minimum is never updated inside the scan", C["span"])
+        return
+    if not pushes or not clears or not mins:
+        o.undecide(who, "center-definition", "center does not keep its list with push / clear and a running minimum the rule can follow")
+        return
+    okpush = allpush == pushes and not reach(V(lower), pushes, lat) and not reach(V("Equal"), pushes, lat) and not reach(V(upper), set(), pushes)
+    o.check(okpush, who, "center-push",
             "the vertex is not pushed exactly when its eccentricity is smaller than or equal to the running minimum", C["span"])
-    o.check(len(clears) == 1 and variant_at(clears[0]["b"]) == lower and
-            any(an.cfg.dominates(clears[0]["b"], ev["b"]) for ev in pushes if variant_at(ev["b"]) == lower), who, "center-clear",
-            "the list is not cleared exactly when a smaller eccentricity is found", C["span"])
-    o.check(len(mins) == 1 and variant_at(mins[0]["b"]) == lower and mins[0]["val"][0] == "mem" and mins[0]["val"][3] == e_t, who,
-            "center-min-update", "the running minimum is not set to the smaller eccentricity exactly when one is found", C["span"])
+    okclear = not reach(V(lower), clears, pushes | lat) and not reach(V("Equal"), set(), clears) and not reach(V(upper), set(), clears)
+    o.check(okclear, who, "center-clear", "the list is not cleared (before the push) exactly when a smaller eccentricity is found", C["span"])
+    okmin = allmins == mins and not reach(V(lower), mins, lat) and not reach(V("Equal"), set(), mins) and not reach(V(upper), set(), mins)
+    o.check(okmin, who, "center-min-update", "the running minimum is not set to the smaller eccentricity exactly when one is found", C["span"])
     rets = [ev for ev in an.events if ev["k"] == "return"]
-    o.check(len(rets) == 1 and rets[0]["val"][0] == "mem" and pushes and pushes[0]["args"][0][0] == "addr"
-            and rets[0]["val"][1] == pushes[0]["args"][0][1], who, "center-returns-list", "the list is not what is returned")
+    pregs = {ev["args"][0][1] for ev in an.events if ev["k"] == "call" and ev["key"] == "alloc::vec::Vec::push" and ev["b"] in body
+             and ev["args"][0][0] == "addr"}
+    o.check(len(rets) == 1 and rets[0]["val"][0] == "mem" and rets[0]["val"][1] in pregs, who, "center-returns-list",
+            "the list is not what is returned")
 
 
 def _periphery_clause(crate, o, m, ecc_path, dia_path):
